@@ -8,6 +8,7 @@ import LoraVerif.Lemmas.Ghost
 import LoraVerif.Lemmas.RefineOps
 import LoraVerif.Lemmas.GhostC
 import LoraVerif.Lemmas.RefineC
+import LoraVerif.Lemmas.RefineListen
 /-!
 # C05 — a downlink is accepted iff it is authentic and fresh (replay protection)
 
@@ -1095,3 +1096,156 @@ end C05
 #print axioms C05.historyC_fcnt_down_strict
 #print axioms C05.historyC_no_replay
 #print axioms C05.asyncC_accept_iff
+
+/-! ## `Device::rxc_listen` (builder Q)
+
+One call of `rxc_listen` under a script of radio answers (`Model.asyncListen`), judged by the REFERENCE:
+`firstAccepted last mp heard` is the first frame heard that `Spec/Freshness.lean` accepts — a data frame that
+fits the RXC size limit `mp` computed at the start of the call (`rxcMp` = `get_rxc_config().max_payload_len`
+of the state the call starts in) and whose MIC verifies under the unique counter fresh after `last`.  The
+frames before it change nothing, so "the counter held when it is heard" is `last` for every frame up to
+and including the first accepted one; nothing after it is heard by this call. -/
+namespace C05
+
+theorem pushDl_eq_queueAfter (cap : Nat) (q : List (Nat × List Nat)) (o : RxOut) :
+    pushDl cap q o = queueAfter cap q o.downlink := by
+  unfold pushDl queueAfter
+  cases o.downlink <;> rfl
+
+/-- **C05 for `rxc_listen`, every script.**  From a state the tracker `gh` describes, for every script whose
+frames have 16-bit wire counters, a call that returns:
+* device with a session (`gh = some last`): answers `DownlinkReceived N` — or `SessionExpired` at the
+  exhausted uplink counter, then without delivering — IFF some frame heard is authentic, fresh and fits;
+  it is then the FIRST such frame (`firstAccepted`, `firstAccepted_some`: the `k` frames before it are not
+  accepted), `N` is remembered (the tracker of the final state is `some N`), the payload is delivered to
+  the downlink queue, the frames after it stay in the script (unheard); otherwise it answers `Listening`
+  / `Err(Radio)` (as the radio ended the listening) with MAC state and queue unchanged;
+* device without a session (`gh = none`): `Err(Mac)` iff a frame was heard; nothing changes either way. -/
+theorem async_listen_accept_iff (r : DevRun) (gh : Gh) (hr : GhRel r.m gh)
+    (hv : r.script.all (ScriptItem.allView viewOk) = true) (res : ListenResult) (r' : DevRun)
+    (h : asyncListen r = .ok (res, r')) :
+    match gh with
+    | none =>
+      r'.m = r.m ∧ r'.downlinks = r.downlinks ∧
+        res = (if (leadFrames r.script).1.isEmpty then (if listenEndsErr r.script then .errRadio else .listening) else .errMac)
+    | some last =>
+      match firstAccepted last (rxcMp r.m) (leadFrames r.script).1 with
+      | none =>
+        r'.m = r.m ∧ r'.downlinks = r.downlinks ∧ res = (if listenEndsErr r.script then .errRadio else .listening)
+      | some (k, N, d) =>
+        GhRel r'.m (some (some N)) ∧ r'.script = r.script.drop (k + 1) ∧
+          ((r.m.fcntUp? ≠ some 0xFFFFFFFF ∧ res = .ok (.downlinkReceived N) ∧
+              r'.downlinks = queueAfter r.dlCap r.downlinks (deliver d))
+           ∨ (r.m.fcntUp? = some 0xFFFFFFFF ∧ res = .ok .sessionExpired ∧ r'.downlinks = r.downlinks)) := by
+  unfold asyncListen at h
+  obtain ⟨rf, hrf, h⟩ := Except.bind_eq_ok h
+  cases gh with
+  | none => exact listenLoop_notJoined _ _ r hr res r' h
+  | some last =>
+    obtain ⟨s, hst, rfl, hl⟩ := hr
+    obtain ⟨res0, r0, h0, hnf⟩ := listenLoop_joined rf.maxPayload.toNat (r.script.length + 1) r s hst hl hv (Nat.lt_succ_self _)
+    rw [h0] at h
+    simp only [Except.ok.injEq, Prod.mk.injEq] at h
+    obtain ⟨rfl, rfl⟩ := h
+    unfold ListenNF at hnf
+    rw [rxcMp_of_ok hrf] at hnf
+    simp only []
+    cases hfa : firstAccepted s.fcntDown (rxcMp r.m) (leadFrames r.script).1 with
+    | none =>
+      simp only [hfa] at hnf ⊢
+      exact ⟨hnf.1, hnf.2.1, hnf.2.2.1⟩
+    | some x =>
+      obtain ⟨k, N, d⟩ := x
+      simp only [hfa] at hnf ⊢
+      obtain ⟨hm, hd, hres, hsc⟩ := hnf
+      obtain ⟨⟨snr, hk⟩, hacc, _⟩ := firstAccepted_some hfa
+      have hw : d.fcnt16 < 65536 := by
+        have hall := leadFrames_cs_all viewOk hv
+        have hmem : ((RxView.data d, snr) : RxView × Int) ∈ (leadFrames r.script).1 := List.mem_of_getElem? hk
+        have := List.all_eq_true.mp hall _ hmem
+        simpa [viewOk] using this
+      refine ⟨by rw [hm]; exact ghRel_accept (lastOk_accepts hw hacc), hsc, ?_⟩
+      have hfu : r.m.fcntUp? = some s.fcntUp := by simp [MacState.fcntUp?, hst]
+      rcases acceptOut_resp s d N (rxcCtx r.m s) with ⟨he, hne⟩ | ⟨he, heq⟩
+      · left
+        refine ⟨by rw [hfu]; simpa using hne, by rw [hres, he], ?_⟩
+        rw [hd, pushDl_eq_queueAfter, he]
+      · right
+        refine ⟨by rw [hfu, heq], by rw [hres, he], ?_⟩
+        rw [hd, pushDl_eq_queueAfter, he]
+        rfl
+
+/-- the "iff" read off `async_listen_accept_iff`: a device with a session answers `Ok(..)` exactly when
+some frame heard is accepted by the reference under the counter held at the start of the call -/
+theorem async_listen_acts_iff (r : DevRun) (last : Option Nat) (hr : GhRel r.m (some last))
+    (hv : r.script.all (ScriptItem.allView viewOk) = true) (res : ListenResult) (r' : DevRun)
+    (h : asyncListen r = .ok (res, r')) :
+    (∃ resp, res = .ok resp) ↔ ∃ c ∈ (leadFrames r.script).1, (specRxc last c.1 (rxcMp r.m)).isSome = true := by
+  have hmain := async_listen_accept_iff r (some last) hr hv res r' h
+  simp only [] at hmain
+  cases hfa : firstAccepted last (rxcMp r.m) (leadFrames r.script).1 with
+  | none =>
+    simp only [hfa] at hmain
+    have hnone := firstAccepted_none hfa
+    constructor
+    · rintro ⟨resp, rfl⟩
+      have := hmain.2.2
+      split at this <;> cases this
+    · rintro ⟨c, hc, hs⟩
+      rw [hnone c hc] at hs
+      cases hs
+  | some x =>
+    obtain ⟨k, N, d⟩ := x
+    simp only [hfa] at hmain
+    obtain ⟨⟨snr, hk⟩, hacc, _⟩ := firstAccepted_some hfa
+    constructor
+    · intro _
+      exact ⟨(.data d, snr), List.mem_of_getElem? hk, by simp [specRxc, hacc]⟩
+    · intro _
+      rcases hmain.2.2 with ⟨_, hres, _⟩ | ⟨_, hres, _⟩ <;> exact ⟨_, hres⟩
+
+/-- **C05 for whole sessions with listen calls, every script, both classes.**  A session of sends, joins,
+setters and `rxc_listen` calls that returns is a run of the extended history `abstractCalls` of its
+calls (`asyncCalls_runC`; a listen call = its Class C receptions `Ev.rxc`): the acceptance trace predicate
+of `historyC_accept_iff` holds of it from the tracker of the start state — every frame handled, in a
+window, inside a receive procedure or by `rxc_listen`, acted upon iff authentic, fresh and fitting —, the
+outputs are the front-end's answers call by call (`SessObs`), the counters reported as accepted strictly
+increase within every stretch without (re-)join, and the final MAC state is the one the tracker describes. -/
+theorem asyncCallsC_accept_iff {σ} (g : Rng σ) (cfg : DevCfg) (d : DevRun) (rs : σ) (gh : Gh) (hr : GhRel d.m gh)
+    (calls : List AsyncCall) (hv : ∀ c ∈ calls, c.allView viewOk = true)
+    (obs : List CallObs) (d' : DevRun) (rs' : σ) (h : asyncCalls g cfg d rs calls = .ok (obs, d', rs')) :
+    ∃ outs, AcceptTraceC gh ((annotC g (d.m, rs) (abstractCalls g cfg (d.m, rs) calls)).zip outs) ∧
+      GhRel d'.m (ghAfterC gh ((annotC g (d.m, rs) (abstractCalls g cfg (d.m, rs) calls)).zip outs)) ∧
+      SessObs calls obs outs ∧
+      ∀ i n, (∀ x ∈ (((annotC g (d.m, rs) (abstractCalls g cfg (d.m, rs) calls)).zip outs).drop i).take n, isJoinC x.1.2 = false) →
+        (((((annotC g (d.m, rs) (abstractCalls g cfg (d.m, rs) calls)).zip outs).drop i).take n).flatMap
+          (fun x => reportedC x.1.2 x.2)).Pairwise (· < ·) := by
+  obtain ⟨outs, hrun, hobs⟩ := asyncCalls_runC g cfg d rs calls obs d' rs' h
+  have hev := abstractCalls_evOkC g cfg (d.m, rs) calls hv
+  obtain ⟨ht, hg⟩ := historyC_accept_iff g d.m rs gh hr _ hev _ outs hrun
+  exact ⟨outs, ht, hg, hobs, fun i n hq => historyC_fcnt_down_strict g d.m rs gh hr _ hev _ outs hrun i n hq⟩
+
+/-! non-vacuity: a forged frame, a replay, a frame too far ahead, then the authentic fresh one (acted upon,
+the frame after it unheard); and the same device hearing only rejected frames until the radio fails -/
+
+def listenStart : DevRun :=
+  { m := { (macJoinAbp (MacState.init (RegionState.init .EU868) 14 0) 7 1 2) with
+      st := .joined { Session.new 7 1 2 with fcntDown := some 10, fcntUp := 3 } },
+    script := [.frame 0 (frame 11 none 14), .frame 0 (frame 10 (some 10) 14), .frame 0 (frame 20000 (some 20000) 14),
+               .frame 1 (frame 12 (some 12) 14), .frame 0 (frame 13 (some 13) 14)],
+    calls := [], downlinks := [] }
+
+example : GhRel listenStart.m (some (some 10)) := ⟨_, rfl, rfl, by intro l hl; cases hl; decide⟩
+example : listenStart.script.all (ScriptItem.allView viewOk) = true := by decide
+example : (firstAccepted (some 10) (rxcMp listenStart.m) (leadFrames listenStart.script).1).map (fun x => (x.1, x.2.1)) = some (3, 12) := by
+  decide +kernel
+example : (asyncListen listenStart).toOption.map (fun x => (x.1, x.2.m.fcntUp?, x.2.script.length)) =
+    some (.ok (.downlinkReceived 12), some 4, 1) := by decide +kernel
+example : (asyncListen { listenStart with script := [.frame 0 (frame 11 none 14), .frame 0 (frame 10 (some 10) 14), .err] }).toOption.map
+    (fun x => (x.1, x.2.m.fcntUp?)) = some (.errRadio, some 3) := by decide +kernel
+
+end C05
+
+#print axioms C05.async_listen_accept_iff
+#print axioms C05.async_listen_acts_iff
+#print axioms C05.asyncCallsC_accept_iff
